@@ -193,7 +193,7 @@ impl Monitor for C04 {
         if tier != Tier::Miri {
             s.push(stream("v2-ctl-s", tier.n(0, 100_000, 5_000_000)));
         }
-        s
+        spec::engine::sample_sweeps(s, tier, 4, 2)
     }
     fn run_case(&self, stream: &str, idx: u64, seed: u64, rec: &mut Recorder) {
         // the random trailers are a function of the input alone, so that a replay is exact
